@@ -20,7 +20,8 @@ inductive Kind
   | REAL | INTEGER | DQUOTE | SQUOTE | LPAREN | RPAREN | LCURLY | RCURLY
   | LBRACKET | RBRACKET | STAR | EQUALS | REF | PLUS | MINUS | SLASH | COMMA
   | SEMICOLON | LT | GT | TILDE
-  | NAMESPACE            -- the token `::` AND the keyword `namespace` (`val.upper()` collides)
+  | SCOPE                -- the token `::`
+  | NAMESPACE            -- the keyword `namespace` (`val.upper()`)
   | COLON | VARARG | ID | OTHER
   | TYPE_SPECIFIER | TYPE_QUALIFIER | STORAGE_CLASS
   | CLASS | ENUM | STRUCT | TEMPLATE | TYPENAME | PUBLIC | PRIVATE | PROTECTED
@@ -32,7 +33,7 @@ def Kind.name : Kind → String
   | .LBRACKET => "LBRACKET" | .RBRACKET => "RBRACKET" | .STAR => "STAR" | .EQUALS => "EQUALS"
   | .REF => "REF" | .PLUS => "PLUS" | .MINUS => "MINUS" | .SLASH => "SLASH" | .COMMA => "COMMA"
   | .SEMICOLON => "SEMICOLON" | .LT => "LT" | .GT => "GT" | .TILDE => "TILDE"
-  | .NAMESPACE => "NAMESPACE" | .COLON => "COLON" | .VARARG => "VARARG" | .ID => "ID"
+  | .SCOPE => "SCOPE" | .NAMESPACE => "NAMESPACE" | .COLON => "COLON" | .VARARG => "VARARG" | .ID => "ID"
   | .OTHER => "OTHER" | .TYPE_SPECIFIER => "TYPE_SPECIFIER" | .TYPE_QUALIFIER => "TYPE_QUALIFIER"
   | .STORAGE_CLASS => "STORAGE_CLASS" | .CLASS => "CLASS" | .ENUM => "ENUM" | .STRUCT => "STRUCT"
   | .TEMPLATE => "TEMPLATE" | .TYPENAME => "TYPENAME" | .PUBLIC => "PUBLIC"
@@ -40,7 +41,7 @@ def Kind.name : Kind → String
 
 def Kind.all : List Kind :=
   [.REAL, .INTEGER, .DQUOTE, .SQUOTE, .LPAREN, .RPAREN, .LCURLY, .RCURLY, .LBRACKET, .RBRACKET,
-   .STAR, .EQUALS, .REF, .PLUS, .MINUS, .SLASH, .COMMA, .SEMICOLON, .LT, .GT, .TILDE, .NAMESPACE,
+   .STAR, .EQUALS, .REF, .PLUS, .MINUS, .SLASH, .COMMA, .SEMICOLON, .LT, .GT, .TILDE, .SCOPE, .NAMESPACE,
    .COLON, .VARARG, .ID, .OTHER, .TYPE_SPECIFIER, .TYPE_QUALIFIER, .STORAGE_CLASS, .CLASS, .ENUM,
    .STRUCT, .TEMPLATE, .TYPENAME, .PUBLIC, .PRIVATE, .PROTECTED]
 
